@@ -30,6 +30,8 @@ Inductive vkind :=
 | VRequestAfterClose   (* C11: a service request on behalf of a connection closed before the previous quiescent point *)
 | VSpuriousRefetch     (* C12: a loaded resource was re-fetched without a system reset matching it *)
 | VMissedRefetch       (* C12: a system reset matched a loaded resource that was not re-fetched *)
+| VThrottleExceeded    (* C19: more re-fetch requests of one system reset outstanding than the reset throttle allows *)
+| VThrottleStuck       (* C19: a re-fetch governed by the reset throttle was never sent *)
 | VQueryRequests.      (* C13: a query event was not followed by exactly one query request per loaded query variant *)
 
 Record viol := { v_kind : vkind; v_c : conn; v_r : rid; v_pos : nat }.
@@ -43,6 +45,9 @@ Record mstate := {
   pos : nat;
   gone : list conn;                                     (* clients that closed their socket: they see no further frame *)
   mqsubs : list rid;                                    (* resources with a standing event subscription *)
+  thr : nat;                                            (* resetThrottle of the gateway under test (0 = unlimited) *)
+  single : nat;                                         (* system resets seen since the last quiescent point *)
+  pgets : list (nat * rid);                             (* get requests still unanswered (request number, resource) *)
   fetched : list rid;                                   (* resources fetched (get answered with content) under the standing subscription *)
   connsubs : list conn;                                 (* connections with a standing conn-event subscription *)
   settled_gone : list conn;                             (* closed connections for which a quiescent point has passed *)
@@ -56,34 +61,34 @@ Record mstate := {
 }.
 
 Definition mstate0 : mstate :=
-  {| clients := []; reqs := []; stream := []; ptrs := []; viols := []; pos := 0; gone := []; mqsubs := []; fetched := []; connsubs := []; settled_gone := []; accreq := []; lastacc := []; reqpos := []; resetting := []; due := []; task_open := None; qexpect := [] |}.
+  {| clients := []; reqs := []; stream := []; ptrs := []; viols := []; pos := 0; gone := []; mqsubs := []; fetched := []; connsubs := []; settled_gone := []; accreq := []; lastacc := []; reqpos := []; resetting := []; due := []; task_open := None; qexpect := []; pgets := []; thr := 0; single := 0 |}.
 
 Definition get_client (st : mstate) (c : conn) : client :=
   match lookup c (clients st) with Some cl => cl | None => client0 end.
 
 Definition set_client (st : mstate) (c : conn) (cl : client) : mstate :=
-  {| clients := set_k c cl (clients st); reqs := reqs st; stream := stream st; ptrs := ptrs st; viols := viols st; pos := pos st; gone := gone st; mqsubs := mqsubs st; fetched := fetched st; connsubs := connsubs st; settled_gone := settled_gone st; accreq := accreq st; lastacc := lastacc st; reqpos := reqpos st; resetting := resetting st; due := due st; task_open := task_open st; qexpect := qexpect st |}.
+  {| clients := set_k c cl (clients st); reqs := reqs st; stream := stream st; ptrs := ptrs st; viols := viols st; pos := pos st; gone := gone st; mqsubs := mqsubs st; fetched := fetched st; connsubs := connsubs st; settled_gone := settled_gone st; accreq := accreq st; lastacc := lastacc st; reqpos := reqpos st; resetting := resetting st; due := due st; task_open := task_open st; qexpect := qexpect st; pgets := pgets st; thr := thr st; single := single st |}.
 
 Definition add_viol (st : mstate) (k : vkind) (c : conn) (r : rid) : mstate :=
   {| clients := clients st; reqs := reqs st; stream := stream st; ptrs := ptrs st;
-     viols := viols st ++ [{| v_kind := k; v_c := c; v_r := r; v_pos := pos st |}]; pos := pos st; gone := gone st; mqsubs := mqsubs st; fetched := fetched st; connsubs := connsubs st; settled_gone := settled_gone st; accreq := accreq st; lastacc := lastacc st; reqpos := reqpos st; resetting := resetting st; due := due st; task_open := task_open st; qexpect := qexpect st |}.
+     viols := viols st ++ [{| v_kind := k; v_c := c; v_r := r; v_pos := pos st |}]; pos := pos st; gone := gone st; mqsubs := mqsubs st; fetched := fetched st; connsubs := connsubs st; settled_gone := settled_gone st; accreq := accreq st; lastacc := lastacc st; reqpos := reqpos st; resetting := resetting st; due := due st; task_open := task_open st; qexpect := qexpect st; pgets := pgets st; thr := thr st; single := single st |}.
 
 Definition set_reqs (st : mstate) (q : list (conn * (nat * (rkind * rid * Z)))) : mstate :=
-  {| clients := clients st; reqs := q; stream := stream st; ptrs := ptrs st; viols := viols st; pos := pos st; gone := gone st; mqsubs := mqsubs st; fetched := fetched st; connsubs := connsubs st; settled_gone := settled_gone st; accreq := accreq st; lastacc := lastacc st; reqpos := reqpos st; resetting := resetting st; due := due st; task_open := task_open st; qexpect := qexpect st |}.
+  {| clients := clients st; reqs := q; stream := stream st; ptrs := ptrs st; viols := viols st; pos := pos st; gone := gone st; mqsubs := mqsubs st; fetched := fetched st; connsubs := connsubs st; settled_gone := settled_gone st; accreq := accreq st; lastacc := lastacc st; reqpos := reqpos st; resetting := resetting st; due := due st; task_open := task_open st; qexpect := qexpect st; pgets := pgets st; thr := thr st; single := single st |}.
 Definition set_ptrs (st : mstate) (p : list (conn * (rid * list nat))) : mstate :=
-  {| clients := clients st; reqs := reqs st; stream := stream st; ptrs := p; viols := viols st; pos := pos st; gone := gone st; mqsubs := mqsubs st; fetched := fetched st; connsubs := connsubs st; settled_gone := settled_gone st; accreq := accreq st; lastacc := lastacc st; reqpos := reqpos st; resetting := resetting st; due := due st; task_open := task_open st; qexpect := qexpect st |}.
+  {| clients := clients st; reqs := reqs st; stream := stream st; ptrs := p; viols := viols st; pos := pos st; gone := gone st; mqsubs := mqsubs st; fetched := fetched st; connsubs := connsubs st; settled_gone := settled_gone st; accreq := accreq st; lastacc := lastacc st; reqpos := reqpos st; resetting := resetting st; due := due st; task_open := task_open st; qexpect := qexpect st; pgets := pgets st; thr := thr st; single := single st |}.
 Definition set_stream (st : mstate) (s : list (rid * list sevent)) : mstate :=
-  {| clients := clients st; reqs := reqs st; stream := s; ptrs := ptrs st; viols := viols st; pos := pos st; gone := gone st; mqsubs := mqsubs st; fetched := fetched st; connsubs := connsubs st; settled_gone := settled_gone st; accreq := accreq st; lastacc := lastacc st; reqpos := reqpos st; resetting := resetting st; due := due st; task_open := task_open st; qexpect := qexpect st |}.
+  {| clients := clients st; reqs := reqs st; stream := s; ptrs := ptrs st; viols := viols st; pos := pos st; gone := gone st; mqsubs := mqsubs st; fetched := fetched st; connsubs := connsubs st; settled_gone := settled_gone st; accreq := accreq st; lastacc := lastacc st; reqpos := reqpos st; resetting := resetting st; due := due st; task_open := task_open st; qexpect := qexpect st; pgets := pgets st; thr := thr st; single := single st |}.
 Definition bump (st : mstate) : mstate :=
-  {| clients := clients st; reqs := reqs st; stream := stream st; ptrs := ptrs st; viols := viols st; pos := S (pos st); gone := gone st; mqsubs := mqsubs st; fetched := fetched st; connsubs := connsubs st; settled_gone := settled_gone st; accreq := accreq st; lastacc := lastacc st; reqpos := reqpos st; resetting := resetting st; due := due st; task_open := task_open st; qexpect := qexpect st |}.
+  {| clients := clients st; reqs := reqs st; stream := stream st; ptrs := ptrs st; viols := viols st; pos := S (pos st); gone := gone st; mqsubs := mqsubs st; fetched := fetched st; connsubs := connsubs st; settled_gone := settled_gone st; accreq := accreq st; lastacc := lastacc st; reqpos := reqpos st; resetting := resetting st; due := due st; task_open := task_open st; qexpect := qexpect st; pgets := pgets st; thr := thr st; single := single st |}.
 
 Definition set_acc (st : mstate) (ar : list (nat * (conn * rid))) (la : list (conn * (rid * option nat))) : mstate :=
   {| clients := clients st; reqs := reqs st; stream := stream st; ptrs := ptrs st; viols := viols st; pos := pos st;
-     gone := gone st; mqsubs := mqsubs st; fetched := fetched st; connsubs := connsubs st; settled_gone := settled_gone st; accreq := ar; lastacc := la; reqpos := reqpos st; resetting := resetting st; due := due st; task_open := task_open st; qexpect := qexpect st |}.
+     gone := gone st; mqsubs := mqsubs st; fetched := fetched st; connsubs := connsubs st; settled_gone := settled_gone st; accreq := ar; lastacc := la; reqpos := reqpos st; resetting := resetting st; due := due st; task_open := task_open st; qexpect := qexpect st; pgets := pgets st; thr := thr st; single := single st |}.
 Definition set_reqpos (st : mstate) (rp : list (conn * (nat * nat))) : mstate :=
   {| clients := clients st; reqs := reqs st; stream := stream st; ptrs := ptrs st; viols := viols st; pos := pos st;
      gone := gone st; mqsubs := mqsubs st; fetched := fetched st; connsubs := connsubs st; settled_gone := settled_gone st;
-     accreq := accreq st; lastacc := lastacc st; reqpos := rp; resetting := resetting st; due := due st; task_open := task_open st; qexpect := qexpect st |}.
+     accreq := accreq st; lastacc := lastacc st; reqpos := rp; resetting := resetting st; due := due st; task_open := task_open st; qexpect := qexpect st; pgets := pgets st; thr := thr st; single := single st |}.
 
 Definition stream_of (st : mstate) (r : rid) : list sevent :=
   match lookup r (stream st) with Some s => s | None => [] end.
@@ -206,7 +211,7 @@ Definition check_served_hook (st : mstate) (c : conn) (rs : rset) : mstate :=
                                else {| clients := clients s; reqs := reqs s; stream := stream s; ptrs := ptrs s;
                                        viols := viols s ++ [{| v_kind := VServedUnsubscribed; v_c := c; v_r := fst x; v_pos := pos s |}];
                                        pos := pos s; gone := gone s; mqsubs := mqsubs s; fetched := fetched s;
-                                       connsubs := connsubs s; settled_gone := settled_gone s; accreq := accreq s; lastacc := lastacc s; reqpos := reqpos s; resetting := resetting s; due := due s; task_open := task_open s; qexpect := qexpect s |}
+                                       connsubs := connsubs s; settled_gone := settled_gone s; accreq := accreq s; lastacc := lastacc s; reqpos := reqpos s; resetting := resetting s; due := due s; task_open := task_open s; qexpect := qexpect s; pgets := pgets s; thr := thr s; single := single s |}
                         end) rs st.
 
 Definition merge_into (st : mstate) (c : conn) (rs : rset) : mstate :=
@@ -299,22 +304,28 @@ Definition frame_conn (e : tev) : option conn :=
   end.
 
 Definition set_gone (st : mstate) (c : conn) : mstate :=
-  {| clients := clients st; reqs := reqs st; stream := stream st; ptrs := ptrs st; viols := viols st; pos := pos st; gone := c :: gone st; mqsubs := mqsubs st; fetched := fetched st; connsubs := connsubs st; settled_gone := settled_gone st; accreq := accreq st; lastacc := lastacc st; reqpos := reqpos st; resetting := resetting st; due := due st; task_open := task_open st; qexpect := qexpect st |}.
+  {| clients := clients st; reqs := reqs st; stream := stream st; ptrs := ptrs st; viols := viols st; pos := pos st; gone := c :: gone st; mqsubs := mqsubs st; fetched := fetched st; connsubs := connsubs st; settled_gone := settled_gone st; accreq := accreq st; lastacc := lastacc st; reqpos := reqpos st; resetting := resetting st; due := due st; task_open := task_open st; qexpect := qexpect st; pgets := pgets st; thr := thr st; single := single st |}.
 
 Definition set_cache (st : mstate) (ms fs : list rid) : mstate :=
   {| clients := clients st; reqs := reqs st; stream := stream st; ptrs := ptrs st; viols := viols st; pos := pos st;
-     gone := gone st; mqsubs := ms; fetched := fs; connsubs := connsubs st; settled_gone := settled_gone st; accreq := accreq st; lastacc := lastacc st; reqpos := reqpos st; resetting := resetting st; due := due st; task_open := task_open st; qexpect := qexpect st |}.
+     gone := gone st; mqsubs := ms; fetched := fs; connsubs := connsubs st; settled_gone := settled_gone st; accreq := accreq st; lastacc := lastacc st; reqpos := reqpos st; resetting := resetting st; due := due st; task_open := task_open st; qexpect := qexpect st; pgets := pgets st; thr := thr st; single := single st |}.
 Definition set_conns (st : mstate) (cs sg : list conn) : mstate :=
   {| clients := clients st; reqs := reqs st; stream := stream st; ptrs := ptrs st; viols := viols st; pos := pos st;
-     gone := gone st; mqsubs := mqsubs st; fetched := fetched st; connsubs := cs; settled_gone := sg; accreq := accreq st; lastacc := lastacc st; reqpos := reqpos st; resetting := resetting st; due := due st; task_open := task_open st; qexpect := qexpect st |}.
+     gone := gone st; mqsubs := mqsubs st; fetched := fetched st; connsubs := cs; settled_gone := sg; accreq := accreq st; lastacc := lastacc st; reqpos := reqpos st; resetting := resetting st; due := due st; task_open := task_open st; qexpect := qexpect st; pgets := pgets st; thr := thr st; single := single st |}.
 Definition set_reset (st : mstate) (rs : list (rid * option nat)) (du : list rid) (tk : option rid) : mstate :=
   {| clients := clients st; reqs := reqs st; stream := stream st; ptrs := ptrs st; viols := viols st; pos := pos st;
      gone := gone st; mqsubs := mqsubs st; fetched := fetched st; connsubs := connsubs st; settled_gone := settled_gone st;
-     accreq := accreq st; lastacc := lastacc st; reqpos := reqpos st; resetting := rs; due := du; task_open := tk; qexpect := qexpect st |}.
+     accreq := accreq st; lastacc := lastacc st; reqpos := reqpos st; resetting := rs; due := du; task_open := tk; qexpect := qexpect st; pgets := pgets st; thr := thr st; single := single st |}.
 Definition set_qexpect (st : mstate) (q : list (rid * nat)) : mstate :=
   {| clients := clients st; reqs := reqs st; stream := stream st; ptrs := ptrs st; viols := viols st; pos := pos st;
      gone := gone st; mqsubs := mqsubs st; fetched := fetched st; connsubs := connsubs st; settled_gone := settled_gone st;
-     accreq := accreq st; lastacc := lastacc st; reqpos := reqpos st; resetting := resetting st; due := due st; task_open := task_open st; qexpect := q |}.
+     accreq := accreq st; lastacc := lastacc st; reqpos := reqpos st; resetting := resetting st; due := due st; task_open := task_open st; qexpect := q; pgets := pgets st; thr := thr st; single := single st |}.
+
+Definition set_pgets (st : mstate) (p : list (nat * rid)) : mstate :=
+  {| clients := clients st; reqs := reqs st; stream := stream st; ptrs := ptrs st; viols := viols st; pos := pos st; gone := gone st; mqsubs := mqsubs st; fetched := fetched st; connsubs := connsubs st; settled_gone := settled_gone st; accreq := accreq st; lastacc := lastacc st; reqpos := reqpos st; resetting := resetting st; due := due st; task_open := task_open st; qexpect := qexpect st; pgets := p; thr := thr st; single := single st |}.
+
+Definition set_thr (st : mstate) (n : nat) (sg : nat) : mstate :=
+  {| clients := clients st; reqs := reqs st; stream := stream st; ptrs := ptrs st; viols := viols st; pos := pos st; gone := gone st; mqsubs := mqsubs st; fetched := fetched st; connsubs := connsubs st; settled_gone := settled_gone st; accreq := accreq st; lastacc := lastacc st; reqpos := reqpos st; resetting := resetting st; due := due st; task_open := task_open st; qexpect := qexpect st; pgets := pgets st; thr := n; single := sg |}.
 Definition set_resetting (st : mstate) (rs : list (rid * option nat)) : mstate := set_reset st rs (due st) (task_open st).
 Definition remove_rid (r : rid) (l : list rid) : list rid := filter (fun x => negb (Nat.eqb x r)) l.
 
@@ -420,12 +431,16 @@ Definition step (st : mstate) (e : tev) : mstate :=
       let st := set_stream st (set_k r (stream_of st r ++ [ev']) (stream st)) in
       (* a processed delete event unregisters the cached resource: a later subscriber fetches it anew *)
       (match ev' with SDelete => set_cache st (mqsubs st) (remove_rid r (fetched st)) | _ => st end)
+  | TThrottle n => set_thr st n (single st)
   | TSysReset res _ =>
       (* every subscribed resource matched by the reset gets a mark in its stream; a loaded one is due for a re-fetch *)
+      let st := set_thr st (thr st) (S (single st)) in
       fold_left (fun s r =>
         if mem r (mqsubs s) then
           let s := set_stream s (set_k r (stream_of s r ++ [SMark]) (stream s)) in
-          if mem r (fetched s) && negb (mem r (due s)) then set_reset s (resetting s) (r :: due s) (task_open s) else s
+          (* ... and so is one whose initial get is still outstanding (the answer in flight may predate the reset) *)
+          if (mem r (fetched s) || existsb (fun x => Nat.eqb (snd x) r) (pgets s)) && negb (mem r (due s))
+          then set_reset s (resetting s) (r :: due s) (task_open s) else s
         else s) res st
   | TQ truth subs ents final =>
       (* C07: nothing outstanding *)
@@ -485,6 +500,9 @@ Definition step (st : mstate) (e : tev) : mstate :=
       let st := set_qexpect st [] in
       (* C12: every loaded resource matched by a reset has been re-fetched *)
       let st := fold_left (fun s r => add_viol s VMissedRefetch 0 r) (due st) st in
+      let st := set_thr st (thr st) 0 in
+      (* C19: at quiescence every answer has released the next waiting request, so no started re-fetch is still unsent *)
+      let st := fold_left (fun s x => match snd x with None => add_viol s VThrottleStuck 0 (fst x) | Some _ => s end) (resetting st) st in
       let st := set_reset st [] [] None in
       (* C11: nothing is left of a closed connection *)
       let st := fold_left (fun s c =>
@@ -512,8 +530,14 @@ Definition step (st : mstate) (e : tev) : mstate :=
       let st := match t with
                 | MGet =>
                     let st := if mem (base_of r) (mqsubs st) then st else add_viol st VGetWithoutSub 0 r in
+                    let st := if existsb (fun x => Nat.eqb (fst x) r && match snd x with None => true | Some _ => false end) (resetting st)
+                              then st else set_pgets st ((n, r) :: pgets st) in
                     if existsb (fun x => Nat.eqb (fst x) r && match snd x with None => true | Some _ => false end) (resetting st)
-                    then set_resetting st (map (fun x => if Nat.eqb (fst x) r then (r, Some n) else x) (resetting st))
+                    then let st := set_resetting st (map (fun x => if Nat.eqb (fst x) r then (r, Some n) else x) (resetting st)) in
+                         (* C19: with one reset since the last quiescent point, its outstanding re-fetches never exceed the reset throttle *)
+                         if negb (Nat.eqb (thr st) 0) && Nat.leb (single st) 1 &&
+                            Nat.ltb (thr st) (length (filter (fun x => match snd x with Some _ => true | None => false end) (resetting st)))
+                         then add_viol st VThrottleExceeded 0 r else st
                     else if mem r (fetched st) && Nat.eqb (base_of r) r   (* a query variant is dropped from the cache as soon as its last subscriber leaves *)
                          then add_viol st VSpuriousRefetch 0 r else st
                 | _ => st
@@ -523,12 +547,17 @@ Definition step (st : mstate) (e : tev) : mstate :=
       | None => st
       end
   | TMqResp n r (OGet d) =>
-      let st := if mem (base_of r) (mqsubs st) then set_cache st (mqsubs st) (r :: remove_rid r (fetched st)) else st in
+      let st := set_pgets st (filter (fun x => negb (Nat.eqb (fst x) n)) (pgets st)) in
+      (* the answer to a reset re-fetch updates a loaded resource; it does not load one whose initial get failed *)
+      let is_reset := existsb (fun x => Nat.eqb (fst x) r && match snd x with Some m => Nat.eqb m n | None => false end) (resetting st) in
+      let st := if mem (base_of r) (mqsubs st) && (negb is_reset || mem r (fetched st))
+                then set_cache st (mqsubs st) (r :: remove_rid r (fetched st)) else st in
       if existsb (fun x => Nat.eqb (fst x) r && match snd x with Some m => Nat.eqb m n | None => false end) (resetting st)
       then set_stream (set_resetting st (filter (fun x => negb (Nat.eqb (fst x) r)) (resetting st)))
                       (set_k r (stream_of st r ++ [SResetEnd]) (stream st))
       else st
   | TMqResp n r o =>
+      let st := set_pgets st (filter (fun x => negb (Nat.eqb (fst x) n)) (pgets st)) in
       (* a re-fetch answered system.notFound deletes the cached resource *)
       let st := match o with
                 | OErr 4 => if existsb (fun x => Nat.eqb (fst x) r) (resetting st) then set_cache st (mqsubs st) (remove_rid r (fetched st)) else st
